@@ -14,6 +14,7 @@ EXPLANATION = ("SQL-shape + provenance + format-typing rules: the metrics query'
                "escaper whose body handles quote, backslash and control characters")
 ASSUMPTIONS = ["not decided: numeric equality of gauges and row counts (no store is executed)",
                "trusted: Display of integers / Ipv4Addr and LowerHex of integers emit only [0-9a-fx.:] characters"]
+EXPLANATION += "; also: every exit of the gauge refresher has run the query and the metrics page is rendered after it; the obligation engine covers everything the two responders reach; C18's migrated-column rule is evaluated here too"
 EXTRA_CONFIGS = []
 
 INT_TYS = {"u8", "u16", "u32", "u64", "u128", "usize", "i8", "i16", "i32", "i64", "i128", "isize"}
